@@ -49,7 +49,7 @@ def c07_jobs(tier):
 
 
 def c18_jobs(tier):
-    return [sim("c18-namescan", "c18", evaluations_counter="inputs", require_counters=["inputs", "api_round_trips"])]
+    return [sim("c18-namescan", "c18", evaluations_counter="inputs", require_counters=["inputs", "api_round_trips", "twin_names_checked"])]
 
 
 def c16_jobs(tier):
@@ -103,7 +103,7 @@ def c13_jobs(tier):
 
 
 def c15_jobs(tier):
-    return [sim("c15-grid", "c15", require_counters=["blocking_pull_timed_against_limit", "blocked_pull_woken_by_publish", "stream_limit_checked", "blocking_pull_after_drain_timed"]),
+    return [sim("c15-grid", "c15", require_counters=["blocking_pull_timed_against_limit", "blocked_pull_woken_by_publish", "stream_limit_checked", "blocking_pull_after_drain_timed", "parked_consumers_served_by_big_publish"]),
             sim("c15-waiters", "c06", params={"n": 2000}, require_nontrivial=False)]
 
 
